@@ -285,6 +285,12 @@ def run(ctx):
     if quick:
         sl = sl[ctx.seed % 2::2]
     R.three_way(ctx, "sigop-encodings", sl)
+    # the script-code start (what an executed OP_CODESEPARATOR moves, and every later digest depends on) through histories with
+    # failed steps, retries and rewinds: part of the state every command is compared on
+    from .c04 import failing_walks
+    fw = [l for l in failing_walks(ctx) if "ab" in l.split(" ")[5]]
+    ctx.compare("codesep-failing-walks", fw, ctx.harness_sharded(fw), ctx.driver_sharded(fw, "model"), ctx.driver_sharded(fw, "spec"), observable=R.canon,
+                nontrivial=lambda c, im: "!" in im.split(" ")[0])
     # tapscript
     tcases = tap_cases(rnd, quick)
     tl = [c[0] for c in tcases]
